@@ -40,6 +40,7 @@ Uninit == [phase |-> "uninit",
            mode |-> "lazy",
            iso |-> EmptyTree, jol |-> EmptyTree, udf |-> EmptyTree,
            blob |-> [i \in {} |-> ""],
+           grp |-> [i \in {} |-> 0],      \* inodes that were one link class before the last reopen
            elt |-> NoElt, hyb |-> NoHyb, npvd |-> 1, gen |-> 0]
 
 (***************************************************************************)
@@ -70,16 +71,20 @@ NameRefs(st, i) == {<<ns, p>> \in NSs \X (DOMAIN st.iso \cup DOMAIN st.jol \cup 
                        p \in DOMAIN Tree(st, ns) /\ Tree(st, ns)[p].ino = i}
 Live(st, i) == NameRefs(st, i) # {} \/ i \in EltInos(st)
 \* content lives exactly as long as something refers to it
-GC(st) == [st EXCEPT !.blob = [i \in {j \in DOMAIN st.blob : Live(st, j)} |-> st.blob[i]]]
+GC(st) == [st EXCEPT !.blob = [i \in {j \in DOMAIN st.blob : Live(st, j)} |-> st.blob[i]],
+                      !.grp  = [i \in {j \in DOMAIN st.blob : Live(st, j)} |-> st.grp[i]]]
 FreshIno(st) == CHOOSE i \in 1..(Cardinality(DOMAIN st.blob) + 1) :
                    i \notin DOMAIN st.blob /\ \A j \in 1..(i - 1) : j \in DOMAIN st.blob
 
 (***************************************************************************)
 (* Outcomes                                                                *)
 (***************************************************************************)
-Ok(st)          == [out |-> "ok", why |-> "", acc |-> st]
-Either(st, why) == [out |-> "either", why |-> why, acc |-> st]
-Refuse(why)     == [out |-> "refuse", why |-> why, acc |-> Uninit]
+\* acc: the state after an accepted call; alt: a second admissible state where the statement
+\* leaves a choice (equal to acc otherwise)
+Ok(st)          == [out |-> "ok", why |-> "", acc |-> st, alt |-> st]
+Ok2(st, st2)    == [out |-> "ok", why |-> "", acc |-> st, alt |-> st2]
+Either(st, why) == [out |-> "either", why |-> why, acc |-> st, alt |-> st]
+Refuse(why)     == [out |-> "refuse", why |-> why, acc |-> Uninit, alt |-> Uninit]
 
 \* combine legality verdicts: any "illegal" refuses, else any "silent" is either
 Worst(vs) == IF "illegal" \in vs THEN "illegal" ELSE IF "silent" \in vs THEN "silent" ELSE "legal"
@@ -151,7 +156,9 @@ AddFpF(st, b, ip, jp, up) ==
           s2  == IF Given(jp) THEN [s1 EXCEPT !.jol = Put(s1.jol, jp, e)] ELSE s1
           s3  == IF Given(up) THEN [s2 EXCEPT !.udf = Put(s2.udf, up, e)] ELSE s2
       IN Decide(why, [s3 EXCEPT !.blob = [j \in DOMAIN st.blob \cup {i} |->
-                                            IF j = i THEN b ELSE st.blob[j]]])
+                                            IF j = i THEN b ELSE st.blob[j]],
+                                !.grp  = [j \in DOMAIN st.blob \cup {i} |->
+                                            IF j = i THEN i ELSE st.grp[j]]])
 
 AddDirF(st, ip, jp, up) ==
     IF st.phase # "live" THEN Refuse("bad_state")
@@ -218,7 +225,12 @@ RmFileF(st, ns, p) ==
       IF i # 0 /\ (i \in EltInos(st) \/ IsCatName(st, ns, p)) THEN Refuse("referenced_by_eltorito")
       ELSE IF i = 0 THEN Ok(WithTree(st, ns, Del(Tree(st, ns), {p})))
       ELSE LET drop(t) == Del(t, {q \in DOMAIN t : t[q].ino = i})
-           IN Ok(GC([st EXCEPT !.iso = drop(st.iso), !.jol = drop(st.jol), !.udf = drop(st.udf)]))
+               \* names that were links of this (empty) content before the last reopen: an image does
+               \* not record which empty files are links of each other, so after a reopen rm_file may
+               \* or may not take them along -- but nothing else
+               sib(t)  == Del(t, {q \in DOMAIN t : t[q].ino # 0 /\ st.grp[t[q].ino] = st.grp[i]})
+           IN Ok2(GC([st EXCEPT !.iso = drop(st.iso), !.jol = drop(st.jol), !.udf = drop(st.udf)]),
+                  GC([st EXCEPT !.iso = sib(st.iso), !.jol = sib(st.jol), !.udf = sib(st.udf)]))
 
 \* hidden flag: ns \in {"iso", "rrv", "jol"}; the Rock Ridge view addresses the ISO9660 record
 HiddenF(st, ns, p, val) ==
@@ -259,10 +271,28 @@ InferredLevel(st) ==
               ELSE LvlFileTbl[p[Len(p)]] = 3
          THEN 3 ELSE 1
 
+\* An image does not record which zero-length files are links of each other (they own no
+\* sectors): a parse gives every name of empty content an inode of its own.  grp remembers the
+\* former link class.
+MaxIno(st) == IF DOMAIN st.blob = {} THEN 0 ELSE CHOOSE m \in DOMAIN st.blob : \A j \in DOMAIN st.blob : j <= m
+RECURSIVE SplitNames(_, _, _)
+SplitNames(st, names, next) ==
+    IF names = {} THEN st
+    ELSE LET n   == CHOOSE x \in names : TRUE
+             old == Tree(st, n[1])[n[2]].ino
+             s1  == WithTree(st, n[1], [Tree(st, n[1]) EXCEPT ![n[2]].ino = next])
+             s2  == [s1 EXCEPT !.blob = [j \in DOMAIN st.blob \cup {next} |-> IF j = next THEN st.blob[old] ELSE st.blob[j]],
+                               !.grp  = [j \in DOMAIN st.blob \cup {next} |-> IF j = next THEN st.grp[old] ELSE st.grp[j]]]
+         IN SplitNames(s2, names \ {n}, next + 1)
+EmptyShared(st) == {i \in DOMAIN st.blob : BlobLen[st.blob[i]] = 0 /\ Cardinality(NameRefs(st, i)) > 1}
+SplitEmpty(st) ==
+    GC(SplitNames(st, UNION {NameRefs(st, i) : i \in EmptyShared(st)}, MaxIno(st) + 1))
+
 \* write_fp to a buffer; close; open_fp on the buffer
 ReopenF(st) ==
     IF st.phase # "live" THEN Refuse("bad_state")
-    ELSE Ok([st EXCEPT !.gen = @ + 1, !.cfg.level = InferredLevel(st)])
+    ELSE LET s0 == [st EXCEPT !.grp = [i \in DOMAIN st.blob |-> i]]   \* classes as written
+         IN Ok(SplitEmpty([s0 EXCEPT !.gen = @ + 1, !.cfg.level = InferredLevel(st)]))
 
 Step(st, a) ==
     CASE a.a = "New"          -> NewF(st, a.cfg, a.mode)
@@ -279,7 +309,7 @@ Step(st, a) ==
       [] a.a = "DuplicatePvd" -> DuplicatePvdF(st)
       [] a.a \in ScheduleActs -> ScheduleF(st, a)
       [] a.a = "Reopen"       -> ReopenF(st)
-      [] OTHER                -> [out |-> "unsupported", why |-> a.a, acc |-> st]
+      [] OTHER                -> [out |-> "unsupported", why |-> a.a, acc |-> st, alt |-> st]
 
 (***************************************************************************)
 (* Invariants of the abstract image (checked on the model by TLC and, as   *)
